@@ -85,24 +85,25 @@ type Run struct {
 	Level string
 	Root  string
 
-	mu           sync.Mutex
-	rule         string
-	assumptions  []string
-	classes      map[string]int
-	hashes       map[uint64]struct{}
-	samples      []any
-	sampleByCls  map[string]int
-	subs         map[string]*subStats
-	extra        map[string]any
-	failures     map[string]*failure
-	violations   int
-	inconclusive []string
-	known        []KnownFinding
-	knownPrinted map[string]bool
-	start        time.Time
-	replayFile   string
-	replay       *replayCase
-	frozen       bool
+	mu            sync.Mutex
+	rule          string
+	assumptions   []string
+	classes       map[string]int
+	hashes        map[uint64]struct{}
+	samples       []any
+	sampleByCls   map[string]int
+	subs          map[string]*subStats
+	extra         map[string]any
+	failures      map[string]*failure
+	violations    int
+	inconclusive  []string
+	known         []KnownFinding
+	openElsewhere map[string]bool
+	knownPrinted  map[string]bool
+	start         time.Time
+	replayFile    string
+	replay        *replayCase
+	frozen        bool
 	// replayingKnown is set while the stored case of a listed finding is re-run
 	replayingKnown bool
 }
@@ -131,18 +132,19 @@ func Main(m *testing.M, id, level, rule string, assumptions ...string) {
 	flag.Parse()
 	r := &Run{
 		ID: id, Level: level, rule: rule, assumptions: assumptions,
-		Tier:         os.Getenv("VERIF_TIER"),
-		Seed:         envInt("VERIF_SEED", DefaultSeed),
-		Shard:        int(envInt("VERIF_SHARD", 0)),
-		Root:         os.Getenv("VERIF_ROOT"),
-		classes:      map[string]int{},
-		hashes:       map[uint64]struct{}{},
-		sampleByCls:  map[string]int{},
-		subs:         map[string]*subStats{},
-		extra:        map[string]any{},
-		failures:     map[string]*failure{},
-		knownPrinted: map[string]bool{},
-		start:        time.Now(),
+		Tier:          os.Getenv("VERIF_TIER"),
+		Seed:          envInt("VERIF_SEED", DefaultSeed),
+		Shard:         int(envInt("VERIF_SHARD", 0)),
+		Root:          os.Getenv("VERIF_ROOT"),
+		classes:       map[string]int{},
+		hashes:        map[uint64]struct{}{},
+		sampleByCls:   map[string]int{},
+		subs:          map[string]*subStats{},
+		openElsewhere: map[string]bool{},
+		extra:         map[string]any{},
+		failures:      map[string]*failure{},
+		knownPrinted:  map[string]bool{},
+		start:         time.Now(),
 	}
 	if r.Tier != "thorough" {
 		r.Tier = "quick"
@@ -207,6 +209,8 @@ func (r *Run) loadKnown() {
 		for _, k := range all.Findings {
 			if k.Property == r.ID {
 				r.known = append(r.known, k)
+			} else if k.Status == "open" {
+				r.openElsewhere[k.ID] = true
 			}
 		}
 	}
@@ -224,6 +228,12 @@ func (r *Run) KnownOpen(findingID string) bool {
 		}
 	}
 	return false
+}
+
+// OpenElsewhere reports whether another property lists the finding with this id as open (a check that uses another
+// property's subject as its yardstick must stay away from that property's listed defects).
+func (r *Run) OpenElsewhere(findingID string) bool {
+	return !r.replayingKnown && r.openElsewhere[findingID]
 }
 
 func (r *Run) Excluded(check string) {
@@ -564,6 +574,10 @@ func (r *Run) finish(code int) {
 	out := os.Getenv("VERIF_OUT")
 	if out == "" {
 		out = filepath.Join(r.Root, "evidence", r.ID+".json")
+		if r.Tier == "" {
+			// not started by the driver (a development run of one test): never overwrite the registered evidence
+			out = filepath.Join(r.Root, ".build", "dev-evidence", r.ID+".json")
+		}
 	}
 	_ = os.MkdirAll(filepath.Dir(out), 0o755)
 	b, _ := json.MarshalIndent(ev, "", " ")
